@@ -62,9 +62,11 @@ impl Prop for C01 {
             v.push(case(&[("kind", "api".into()), ("len", rng.range(0, 90).to_string()), ("rk", "random".into()), ("wk", "all".into()),
                 ("fresh", (rng.chance(1, 4)).to_string()), ("seed", rng.next().to_string())]));
         }
+        v.extend(crate::props::clirt::cli_rt_cases("key", tier, seed));
         v
     }
     fn run(&self, c: &Case, m: &mut Model) -> Outcome {
+        if get(c, "kind") == "cli-rt" { return crate::props::clirt::run_cli_rt(c, m); }
         let mut o = Outcome::default();
         let seed: u64 = get(c, "seed").parse().unwrap_or(0);
         let mut rng = Rng::new(seed);
